@@ -45,10 +45,18 @@ def check_q1(ctx) -> None:
     ctx.require(ROW is not None, 'work_package: the row handed to the locked append was not found (idiom changed)')
     loops = [n for n in ast.walk(w.node) if isinstance(n, ast.For) and
              any(isinstance(s, ast.AugAssign) and norm(s.target) == ROW for s in ast.walk(n))]
-    ctx.require(len(loops) == 1, f'work_package: expected one loop building the row, found {len(loops)}')
-    loop = loops[0]
+    comp_form = None
+    if not loops:
+        # join form: `row = ''.join(<token> + ', ' for x in <lines> [if x is not None])`
+        from gxstat.inline import inline_sequential
+        for st in ast.walk(w.node):
+            if isinstance(st, ast.Assign) and norm(st.targets[0]) == ROW and isinstance(st.value, ast.Call) and isinstance(st.value.func, ast.Attribute) \
+                    and st.value.func.attr == 'join' and st.value.args and isinstance(st.value.args[0], (ast.GeneratorExp, ast.ListComp)) \
+                    and len(st.value.args[0].generators) == 1:
+                comp_form = (st, st.value.args[0])
+    ctx.require(len(loops) == 1 or comp_form is not None, f'work_package: expected one loop building the row, found {len(loops)}')
+    loop = loops[0] if loops else comp_form[0]
     where = f'{w.module.rel}:{loop.lineno}'
-
     def tokens_on_paths(stmts) -> List[int]:
         """number of `result_s += ...` executions on each path through stmts (if/else forks only)."""
         paths = [0]
@@ -65,13 +73,21 @@ def check_q1(ctx) -> None:
             elif isinstance(st, (ast.Continue, ast.Break)):
                 return sorted(set(paths))
         return sorted(set(paths))
-    counts = tokens_on_paths(loop.body)
+    counts = tokens_on_paths(loop.body) if comp_form is None else ([0, 1] if comp_form[1].generators[0].ifs else [1])
     ctx.check(counts == [1], 'Q1', 'work_package/one-token-per-output', where,
               f'a requested output contributes {counts} tokens to the row depending on the path: when its label is not '
               f'found the token is skipped and every later value shifts under the wrong header',
               fact=f'tokens per iteration on each path: {counts}')
     # row loop iterates the outputs list handed over by main, in order
-    it = norm(loop.iter)
+    if comp_form is None:
+        it = norm(loop.iter)
+    else:
+        # the lines the join runs over come, one per requested output and in order, from a comprehension over the outputs list
+        unpacked = tuple(norm(st.target if isinstance(st, ast.AnnAssign) else st.targets[0]) for st in w.node.body
+                         if isinstance(st, (ast.Assign, ast.AnnAssign)) and st.value is not None and norm(st.value).startswith('pass_list['))
+        src_e = inline_sequential(comp_form[1].generators[0].iter, comp_form[0], keep=unpacked)
+        it = norm(src_e.generators[0].iter) if isinstance(src_e, (ast.ListComp, ast.GeneratorExp)) and len(src_e.generators) == 1 \
+            and not src_e.generators[0].ifs else norm(src_e)
     alias = {norm(st.targets[0]): norm(st.value) for st in w.node.body if isinstance(st, ast.Assign)}
     src = alias.get(it, it)
     src = alias.get(src, src)
@@ -109,9 +125,30 @@ def check_q1(ctx) -> None:
     ctx.require(HDR is not None, 'main: the header line written to the new result file was not found (idiom changed)')
     hdr_loops = [n for n in main.node.body if isinstance(n, ast.For) and
                  any(isinstance(s, ast.AugAssign) and norm(s.target) == HDR for s in n.body)]
-    ctx.require(len(hdr_loops) == 2, f'main: expected two header loops, found {len(hdr_loops)}')
-    ctx.check([norm(l.iter) for l in hdr_loops] == ['outputs', 'inputs'], 'Q1', 'main/header-order', f'{main.module.rel}:{hdr_loops[0].lineno}',
-              f'header columns are built from {[norm(l.iter) for l in hdr_loops]} (row order is outputs then inputs)')
+    if not hdr_loops:
+        # join form: `', '.join(outputs + [v[0] for v in inputs]) + '\n'`
+        from gxstat.inline import inline_sequential
+        hd = [st for st in main.node.body if isinstance(st, ast.Assign) and norm(st.targets[0]) == HDR]
+        ctx.require(len(hd) == 1, 'main: header is built neither by two loops nor by one join (idiom changed)')
+        hv = inline_sequential(hd[0].value, hd[0])
+        j = next((c for c in ast.walk(hv) if isinstance(c, ast.Call) and isinstance(c.func, ast.Attribute) and c.func.attr == 'join' and c.args), None)
+        ctx.require(j is not None and isinstance(j.args[0], ast.BinOp) and isinstance(j.args[0].op, ast.Add),
+                    'main: header is built neither by two loops nor by a join over outputs + inputs (idiom changed)')
+        parts = []
+        for side in (j.args[0].left, j.args[0].right):
+            if isinstance(side, ast.Name):
+                parts.append(side.id)
+            elif isinstance(side, (ast.ListComp, ast.GeneratorExp)) and len(side.generators) == 1 and \
+                    norm(side.elt) == f'{norm(side.generators[0].target)}[0]':
+                parts.append(norm(side.generators[0].iter))
+            else:
+                raise AnalysisError(f'main: header part `{norm(side)[:60]}` not recognised (idiom changed)')
+        ctx.check(parts == ['outputs', 'inputs'], 'Q1', 'main/header-order', f'{main.module.rel}:{hd[0].lineno}',
+                  f'header columns are built from {parts} (row order is outputs then inputs)')
+    else:
+        ctx.require(len(hdr_loops) == 2, f'main: expected two header loops, found {len(hdr_loops)}')
+        ctx.check([norm(l.iter) for l in hdr_loops] == ['outputs', 'inputs'], 'Q1', 'main/header-order', f'{main.module.rel}:{hdr_loops[0].lineno}',
+                  f'header columns are built from {[norm(l.iter) for l in hdr_loops]} (row order is outputs then inputs)')
     # after the loop the inputs are appended to the row: the text appended to the simulated input file (C13 M3 / Q5)
     ENT = entries_var(w)
     ctx.require(ENT is not None, 'work_package: the sampled-input text appended to the simulated input file was not found (idiom changed)')
